@@ -603,7 +603,8 @@ func C19(c *vlib.Ctx) {
 		if c19Check(c, origin+":"+strings.Join(muts, ","), t) {
 			c.Distinct("nontrivial", c19Features(t)+"/"+strings.Join(muts, ","))
 			c.Count("parsed_"+origin, 1)
-			if i%2000 == 0 {
+			if i%2000 == 0 || c.Counter("sampled_texts") < 3 {
+				c.Count("sampled_texts", 1)
 				c.Sample(map[string]any{"origin": origin, "mutations": muts, "text": t})
 			}
 		}
